@@ -265,6 +265,43 @@ func ruleTotalsGates(c *core.Ctx, rule string) {
 				}
 			}
 		}
+		// the lines printed for a food the book defines and for one it does not are gated by the same switches
+		pf, pn := map[string]bool{}, map[string]bool{}
+		for _, ct := range cons {
+			if ct.sink != "print" || ct.value == "" {
+				continue
+			}
+			switch {
+			case ct.found == "T" && ct.name == "inner.Name":
+				pf[ct.gate] = true
+			case ct.found == "F" && ct.name == "outer.Name":
+				pn[ct.gate] = true
+			}
+		}
+		if len(pf) > 0 && len(pn) > 0 {
+			// compared switch by switch: the values of each switch under which the line is printed
+			proj := func(m map[string]bool) map[string]bool {
+				out := map[string]bool{}
+				for g := range m {
+					for _, part := range strings.Split(g, ",") {
+						if part != "" {
+							out[part] = true
+						}
+					}
+				}
+				return out
+			}
+			a, b := proj(pf), proj(pn)
+			same := len(a) == len(b)
+			for g := range a {
+				if !b[g] {
+					same = false
+				}
+			}
+			if !same {
+				bad = append(bad, fmt.Sprintf("the ingredient line of a food the book defines is printed under %v, that of a food it does not define under %v (switch values seen on the printing paths): for some combination of --totals-only/--no-totals one of them is shown and the other is not, so the switches change which records appear", keysOf(proj(pf)), keysOf(proj(pn))))
+			}
+		}
 		if !usesSwitch {
 			continue
 		}
